@@ -32,6 +32,46 @@ class PointBehavior(simnet.Behavior):
         return super().write(net, sock, rec)
 
 
+def gate_lines():
+    """line number of the gate's test `if self._state in (NEW, IDLE):` in httpcore/_sync/http11.py handle_request"""
+    import ast
+    import os
+
+    import core
+    path = os.path.join(core.REPO, "httpcore", "_sync", "http11.py")
+    tree = ast.parse(open(path).read())
+    for n in ast.walk(tree):
+        if isinstance(n, ast.If) and ast.unparse(n.test).startswith("self._state in"):
+            return n.lineno          # the gate's test is evaluated when this line runs
+    return None
+
+
+class GateTracker:
+    """who passed a connection's ACTIVE gate when, and when did somebody's close() of that connection execute its first statement"""
+
+    def __init__(self):
+        self.after_gate = gate_lines()
+        self.step = 0
+        self.gate = {}           # conn id -> list of (step, thread)
+        self.closing = {}        # thread -> conn id whose close() has been entered but whose first statement has not completed yet
+        self.close_done = {}     # conn id -> step at which the first statement of a close() had executed
+        self.checking = {}       # thread -> conn id whose gate test is about to be evaluated
+
+    def __call__(self, what):
+        import threading
+        self.step += 1
+        me = threading.current_thread().name
+        if me in self.closing:
+            self.close_done.setdefault(self.closing.pop(me), self.step)
+        if me in self.checking:
+            self.gate.setdefault(self.checking.pop(me), []).append((self.step, me))      # the gate's test has been evaluated by now
+        if what and what[0] == "line" and what[1] == "http11.py":
+            if what[2] == "close" and what[4] not in self.close_done:
+                self.closing[me] = what[4]
+            elif what[2] == "handle_request" and what[3] == self.after_gate:
+                self.checking[me] = what[4]
+
+
 def gen_cfg(rng):
     return {"threads": rng.choice([2, 2, 3, 3, 4]), "max_connections": rng.choice([1, 1, 2, 3]), "max_keepalive": rng.choice([None, 0, 1, 1]),
             "origins": rng.choice([1, 2, 2, 3]), "requests_per_thread": rng.choice([1, 2, 2, 3]), "http2": rng.random() < 0.2,
@@ -85,6 +125,18 @@ def run_one(cfg, seed):
                 seen_over.append(n)
                 violations.append(("C08:connection-limit-exceeded", {"connections": n, "max": maxc, "at": repr(what)}))
         sched.observers.append(observer)
+        retired_assigned = []       # connections a pass handed to _close_connections while a request was assigned to them
+        orig_pass = pool._assign_requests_to_connections
+
+        def traced_pass():
+            before = {id(r): r.connection for r in pool._requests}
+            closing = orig_pass()
+            for conn in closing:
+                users = [r for r in pool._requests if r.connection is conn or before.get(id(r)) is conn]
+                if users:
+                    retired_assigned.append((conn, [r.request.url.target for r in users]))
+            return closing
+        pool._assign_requests_to_connections = traced_pass
         scheme = "https" if cfg["http2"] else "http"
 
         def worker(plan):
@@ -145,13 +197,11 @@ def run_one(cfg, seed):
             violations.append(("C08:request-left-queued", {"n": len(pool._requests)}))
     for cl, d in violations:
         if cl == "C08:request-failed" and d.get("tok"):
-            # was the connection this request was sent on closed by another thread while the request was under way?
-            tok = d["tok"].encode()
-            sock = next((r.get("sock") for r in net.log if r["op"] == "write" and b"/" + tok + b" " in bytes(r.get("data", b""))), None)
-            closers = [r.get("thread") for r in net.log if r["op"] == "close" and r.get("sock") == sock]
-            d["socket"] = sock
-            d["cause"] = ("connection-closed-by-other-thread" if sock is not None and closers and closers[0] != d["thread"]
-                          and "closed socket" in (d.get("exc") or "") else "other")
+            # root cause: had a pass retired (handed to _close_connections) a connection while this request was assigned to it?
+            target = b"/" + d["tok"].encode()
+            hit = [c for c, targets in retired_assigned if target in targets]
+            d["cause"] = "pass-retired-a-connection-assigned-to-this-request" if hit and "closed socket" in (d.get("exc") or "") else "other"
+            d["retired_assigned"] = [[t.decode() for t in targets] for _c, targets in retired_assigned][:6]
     if violations:
         tail = [(r.get("thread"), r["op"], r.get("sock"), bytes(r["data"][:30]) if "data" in r else r.get("ret")) for r in net.log][-40:]
         for _c, d in violations:
